@@ -140,10 +140,21 @@ def register(reg, prog):
                 ('size1-only-on-first-block', z3.Implies(frag, ev('(current_block1.opt.size1 is not None) == (block_cursor == 0) or app_request.opt.size1 is not None'))),
                 ('whole-body-in-one-message-only-if-it-fits', z3.Implies(z3.Not(frag), ev('len(app_request.payload) <= (app_request.remote.maximum_payload_size if size_exp >= 6 else bsize(size_exp))')))]
 
+    def log_exchange(ex, s, rv):
+        # ghost: the Block1 option sent with this exchange and the one in its answer, as they are at this moment
+        s.log.append(('block_exchange', ex.spec_val(s, 'current_block1.opt.block1'), ex.spec_val(s, 'r.opt.block1', env=dict(ex.visible_env(s), r=rv))))
+
     def run_exit(ex, s, entry, env, result):
         sets = evs(s, 'set_result')
         b2 = evs(s, 'complete_block2')
         g = [('result-set-once-and-only-after-both-phases', B(len(sets) == 1 and len(b2) == 1 and s.log.index(b2[0]) < s.log.index(sets[0])))]
+        # the Block1 phase is only left for the Block2 phase when the LAST acknowledgement, too, names the block that was sent
+        xs = evs(s, 'block_exchange')
+        if xs:
+            sent, got = xs[-1][1], xs[-1][2]
+            both = z3.And(z3.Not(sent.is_none()), z3.Not(got.is_none())) if isinstance(sent, VOpt) and isinstance(got, VOpt) else B(False)
+            g.append(('final-acknowledgement-names-the-block-that-was-sent',
+                      z3.Implies(both, got.some().items[0].t == sent.some().items[0].t) if isinstance(sent, VOpt) and isinstance(got, VOpt) else B(True)))
         for e in sets:
             g.append(('result-is-the-assembled-response', e[2].t == b2[0][-1].t if b2 else B(False)))
             g.append(('result-goes-to-the-callers-future', e[1].t == env['response'].t))
@@ -178,7 +189,7 @@ def register(reg, prog):
                              'assume': ['app_request.remote is not None', '0 <= app_request.remote.maximum_block_size_exp <= 7',
                                         'app_request.remote.maximum_payload_size >= 1024']},
                          1: {'havoc': True, 'check': run_at_request, 'owned': ['app_request', 'app_request.opt', 'current_block1', 'current_block1.opt'],
-                             'result': MSG, 'result_assume': RESP_WF,
+                             'result': MSG, 'result_assume': RESP_WF, 'after': log_exchange,
                              'assume': ['app_request.remote is not None', '0 <= app_request.remote.maximum_block_size_exp <= 7',
                                         'app_request.remote.maximum_payload_size >= 1024']},
                          2: {'havoc': False},
